@@ -192,11 +192,8 @@ func c04Predicate(c *c04Case, file []byte, idx desync.Index, err error) (class, 
 			if !accepted {
 				return "", ""
 			}
-			if c04MaxUint64-(last-o)+1 > ref.Max {
-				return "accepts-decreasing-offsets", fmt.Sprintf("row %d: end offset %d after %d accepted", i, o, last)
-			}
-			// 2^64 - (last-o) <= max: the unsigned difference wraps to a value the size check lets through
-			return "accepts-decreasing-offsets/max-within-wrap", fmt.Sprintf("row %d: end offset %d after %d accepted because max=%d >= 2^64-%d", i, o, last, ref.Max, last-o)
+			// whatever the declared maximum: 2^64-(last-o) <= max does not excuse it
+			return "accepts-decreasing-offsets", fmt.Sprintf("row %d: end offset %d after %d accepted (max=%d)", i, o, last, ref.Max)
 		} else if o-last > ref.Max {
 			if accepted {
 				return "accepts-oversize-chunk", fmt.Sprintf("row %d: chunk of %d bytes accepted with max %d", i, o-last, ref.Max)
@@ -962,6 +959,9 @@ func runC04(a vh.Args, o *vh.Oracle, r *vh.Result) error {
 		nstore = 40
 	}
 	if err := c04Stores(a, r, rng, nstore); err != nil {
+		return err
+	}
+	if err := c04S3(a, r, rng, nstore/2); err != nil {
 		return err
 	}
 	return c04CLI(a, o, r, rng)
